@@ -450,6 +450,9 @@ class Run:
             self.rec.hooks['exit'] = self._on_exit
             self.early_future = proc.future()  # what a waiter who asked before the run holds
             proc.add_cleanup(lambda: self.rec.ev('cleanup'))
+            # ... and one bound method registered twice (a resource released once per unit that was taken): two registrations, two calls
+            proc.add_cleanup(self._release_one)
+            proc.add_cleanup(self._release_one)
             if case.get('cleanup_chain'):
                 # a cleanup that, when it runs, registers one more (accepted by add_cleanup, so it has to run as well, once)
                 proc.add_cleanup(lambda: (self.rec.ev('cleanup-first'), proc.add_cleanup(lambda: self.rec.ev('cleanup-late'))))
@@ -567,6 +570,9 @@ class Run:
         first.kill = lambda *a, **k: False
         ctx = plumpy.LoadSaveContext(loop=loop) if communicator is None else plumpy.LoadSaveContext(loop=loop, communicator=communicator)
         return bundle.unbundle(ctx)
+
+    def _release_one(self):
+        self.rec.ev('cleanup-release')
 
     def _collect_extra(self):
         return {}
